@@ -14,6 +14,7 @@ ATTACH = {
     "src/bit_encoding/bitwriter.rs": "bitwriter.rs",
     "src/bit_encoding/encode.rs": "encode.rs",
     "src/value.rs": "value.rs",
+    "src/bit_machine/limits.rs": "limits.rs",
 }
 
 
